@@ -1,0 +1,538 @@
+//! Verification hooks and facade, compiled only with `--cfg n2_verif`.
+//!
+//! A harness links n2 as a library, installs a [`Hooks`] implementation and
+//! then drives the real entry points.  Hooks observe the scheduler at its
+//! linearization points (state changes, command start/finish, log writes,
+//! progress reports) and script what the outside world does (which running
+//! command finishes next, and how).  Nothing in here changes n2's behaviour
+//! when no hooks are installed.
+
+use crate::{
+    densemap::Index,
+    graph::{Build, BuildId, Graph, Hashes},
+    process::Termination,
+    smallmap::SmallMap,
+    work::{BuildState, StateCounts},
+};
+use std::cell::RefCell;
+
+pub use crate::process::Termination as CommandTermination;
+use std::sync::{Condvar, Mutex};
+
+/// Plain-data view of one build statement as n2 holds it.
+#[derive(Debug, Clone)]
+pub struct BuildInfo {
+    pub id: usize,
+    pub file: String,
+    pub line: usize,
+    pub outs: Vec<String>,
+    pub explicit_outs: usize,
+    pub ins: Vec<String>,
+    pub explicit_ins: usize,
+    pub implicit_ins: usize,
+    pub order_only_ins: usize,
+    pub discovered: Vec<String>,
+    pub cmdline: Option<String>,
+    pub desc: Option<String>,
+    pub depfile: Option<String>,
+    pub parse_showincludes: bool,
+    pub rspfile: Option<(String, String)>,
+    pub pool: Option<String>,
+    pub hide_success: bool,
+    pub hide_progress: bool,
+    /// Hash loaded from the build log, if any.
+    pub hash: Option<u64>,
+}
+
+pub fn build_info(graph: &Graph, id: BuildId, build: &Build, hash: Option<u64>) -> BuildInfo {
+    let names = |ids: &[crate::graph::FileId]| -> Vec<String> {
+        ids.iter().map(|&f| graph.file(f).name.clone()).collect()
+    };
+    BuildInfo {
+        id: id.index(),
+        file: build.location.filename.display().to_string(),
+        line: build.location.line,
+        outs: names(build.outs()),
+        explicit_outs: build.outs.explicit,
+        ins: names(&build.ins.ids),
+        explicit_ins: build.ins.explicit,
+        implicit_ins: build.ins.implicit,
+        order_only_ins: build.ins.order_only,
+        discovered: names(build.discovered_ins()),
+        cmdline: build.cmdline.clone(),
+        desc: build.desc.clone(),
+        depfile: build.depfile.clone(),
+        parse_showincludes: build.parse_showincludes,
+        rspfile: build
+            .rspfile
+            .as_ref()
+            .map(|r| (r.path.display().to_string(), r.content.clone())),
+        pool: build.pool.clone(),
+        hide_success: build.hide_success,
+        hide_progress: build.hide_progress,
+        hash,
+    }
+}
+
+fn graph_info(graph: &Graph, hashes: Option<&Hashes>) -> Vec<BuildInfo> {
+    let n = graph.builds.next_id().index();
+    (0..n)
+        .map(|i| {
+            let id = BuildId::from(i);
+            let hash = hashes.and_then(|h| h.get(id)).map(|h| h.0);
+            build_info(graph, id, &graph.builds[id], hash)
+        })
+        .collect()
+}
+
+/// What a scripted command does when it is allowed to finish.
+pub struct CommandResult {
+    pub termination: Termination,
+    pub output: Vec<u8>,
+}
+
+#[derive(Debug, Clone)]
+pub enum ProgressEvent {
+    Update([usize; 6]),
+    TaskStarted(usize),
+    TaskOutput(usize, Vec<u8>),
+    TaskFinished {
+        id: usize,
+        termination: &'static str,
+        output: Vec<u8>,
+        discovered: Option<Vec<String>>,
+    },
+    Log(String),
+}
+
+pub fn state_name(s: BuildState) -> &'static str {
+    match s {
+        BuildState::Unknown => "Unknown",
+        BuildState::Want => "Want",
+        BuildState::Ready => "Ready",
+        BuildState::Queued => "Queued",
+        BuildState::Running => "Running",
+        BuildState::Done => "Done",
+        BuildState::Failed => "Failed",
+    }
+}
+
+pub fn termination_name(t: &Termination) -> &'static str {
+    match t {
+        Termination::Success => "ok",
+        Termination::Failure => "fail",
+        Termination::Interrupted => "intr",
+    }
+}
+
+/// Callbacks a harness implements.  All are called on the thread that runs
+/// the build (the one that installed the hooks).
+#[allow(unused_variables)]
+pub trait Hooks {
+    /// A `Work` was created: the graph as loaded, with log state applied.
+    fn work_new(&mut self, builds: Vec<BuildInfo>, pools: Vec<(String, usize)>) {}
+    /// `BuildStates::set` completed a transition.
+    /// pools: (name, depth, running, queued).
+    fn set(
+        &mut self,
+        id: usize,
+        prev: &'static str,
+        new: &'static str,
+        counts: [usize; 6],
+        pending: usize,
+        pools: Vec<(String, usize, usize, usize)>,
+    ) {
+    }
+    /// `Runner::start` is about to launch a command.
+    fn runner_start(&mut self, build: BuildInfoLite) {}
+    /// `Runner::wait` is about to block with `running` commands in flight.
+    /// The harness chooses which scripted command finishes (see
+    /// [`release_command`]).
+    fn runner_wait(&mut self, running: usize) {}
+    /// `Runner::wait` returns this finished task to the scheduler.
+    fn runner_done(&mut self, id: usize, termination: &'static str) {}
+    /// Bytes about to be appended to the build log.  Returning `Some(k)`
+    /// persists only the first `k` bytes and then abandons the invocation.
+    fn db_write(&mut self, bytes: &[u8]) -> Option<usize> {
+        None
+    }
+    /// A build record (decoded) is about to be written.
+    fn db_build(&mut self, outs: Vec<String>, deps: Vec<String>, hash: u64) {}
+    fn progress(&mut self, ev: ProgressEvent) {}
+}
+
+/// The parts of a build that `Runner::start` sees.
+#[derive(Debug, Clone)]
+pub struct BuildInfoLite {
+    pub id: usize,
+    pub cmdline: Option<String>,
+    pub depfile: Option<String>,
+    pub rspfile: Option<(String, String)>,
+    pub pool: Option<String>,
+    pub parse_showincludes: bool,
+}
+
+thread_local! {
+    static HOOKS: RefCell<Option<Box<dyn Hooks>>> = RefCell::new(None);
+    static ARGV: RefCell<Option<Vec<String>>> = RefCell::new(None);
+}
+
+pub fn install(hooks: Box<dyn Hooks>) {
+    HOOKS.with(|h| *h.borrow_mut() = Some(hooks));
+}
+
+pub fn uninstall() -> Option<Box<dyn Hooks>> {
+    HOOKS.with(|h| h.borrow_mut().take())
+}
+
+pub fn active() -> bool {
+    HOOKS.with(|h| h.borrow().is_some())
+}
+
+fn with_hooks<R>(f: impl FnOnce(&mut dyn Hooks) -> R) -> Option<R> {
+    HOOKS.with(|h| {
+        let mut b = h.borrow_mut();
+        b.as_mut().map(|hooks| f(hooks.as_mut()))
+    })
+}
+
+/// Payload of the panic used to abandon an invocation (simulated process
+/// death).  The harness catches it with `catch_unwind`.
+pub struct Abandon;
+
+pub fn abandon() -> ! {
+    abort_commands();
+    std::panic::resume_unwind(Box::new(Abandon));
+}
+
+// ---- command line -------------------------------------------------------
+
+/// Arguments (without argv[0]) for the next call of `run::run`.
+pub fn set_argv(args: Vec<String>) {
+    ARGV.with(|a| *a.borrow_mut() = Some(args));
+}
+
+pub fn take_argv() -> Option<Vec<String>> {
+    ARGV.with(|a| a.borrow_mut().take())
+}
+
+// ---- scheduler ----------------------------------------------------------
+
+pub fn on_work_new(graph: &Graph, hashes: &Hashes, pools: &SmallMap<String, usize>) {
+    if !active() {
+        return;
+    }
+    let builds = graph_info(graph, Some(hashes));
+    let pools = pools.iter().map(|(n, d)| (n.clone(), *d)).collect();
+    with_hooks(|h| h.work_new(builds, pools));
+}
+
+pub fn on_set(
+    id: BuildId,
+    prev: BuildState,
+    new: BuildState,
+    counts: [usize; 6],
+    pending: usize,
+    pools: Vec<(String, usize, usize, usize)>,
+) {
+    with_hooks(|h| {
+        h.set(
+            id.index(),
+            state_name(prev),
+            state_name(new),
+            counts,
+            pending,
+            pools,
+        )
+    });
+}
+
+pub fn on_runner_start(id: BuildId, build: &Build) {
+    let lite = BuildInfoLite {
+        id: id.index(),
+        cmdline: build.cmdline.clone(),
+        depfile: build.depfile.clone(),
+        rspfile: build
+            .rspfile
+            .as_ref()
+            .map(|r| (r.path.display().to_string(), r.content.clone())),
+        pool: build.pool.clone(),
+        parse_showincludes: build.parse_showincludes,
+    };
+    with_hooks(|h| h.runner_start(lite));
+}
+
+pub fn on_runner_wait(running: usize) {
+    with_hooks(|h| h.runner_wait(running));
+}
+
+pub fn on_runner_done(id: BuildId, termination: &Termination) {
+    let t = termination_name(termination);
+    with_hooks(|h| h.runner_done(id.index(), t));
+}
+
+// ---- scripted commands --------------------------------------------------
+//
+// With hooks installed, `process::run_command` does not spawn anything: the
+// task thread registers its command line here and blocks until the harness
+// (from `Hooks::runner_wait`, on the main thread) releases it with a result.
+// Everything around the subprocess (response file, depfile parsing,
+// /showIncludes filtering, thread, channel) stays real.
+
+struct Pending {
+    cmdline: String,
+    result: Option<Option<CommandResult>>, // Some(None) = aborted
+}
+
+struct Commands {
+    scripted: bool,
+    pending: Vec<Pending>,
+}
+
+static COMMANDS: Mutex<Commands> = Mutex::new(Commands {
+    scripted: false,
+    pending: Vec::new(),
+});
+static COMMANDS_CV: Condvar = Condvar::new();
+
+/// Turn scripted command execution on or off (process-wide).
+pub fn set_scripted(on: bool) {
+    let mut c = COMMANDS.lock().unwrap();
+    c.scripted = on;
+    c.pending.clear();
+}
+
+/// Called at the top of `process::run_command` on the task thread.
+pub fn run_command(cmdline: &str) -> Option<anyhow::Result<CommandResult>> {
+    let mut c = COMMANDS.lock().unwrap();
+    if !c.scripted {
+        return None;
+    }
+    c.pending.push(Pending {
+        cmdline: cmdline.to_owned(),
+        result: None,
+    });
+    COMMANDS_CV.notify_all();
+    loop {
+        if let Some(pos) = c
+            .pending
+            .iter()
+            .position(|p| p.cmdline == cmdline && p.result.is_some())
+        {
+            let p = c.pending.remove(pos);
+            return Some(match p.result.unwrap() {
+                Some(r) => Ok(r),
+                None => Err(anyhow::anyhow!("verif: invocation abandoned")),
+            });
+        }
+        c = COMMANDS_CV.wait(c).unwrap();
+    }
+}
+
+/// Blocks until `n` commands are registered and unreleased; returns their
+/// command lines in registration order.
+pub fn wait_for_commands(n: usize) -> Vec<String> {
+    let mut c = COMMANDS.lock().unwrap();
+    loop {
+        let waiting: Vec<String> = c
+            .pending
+            .iter()
+            .filter(|p| p.result.is_none())
+            .map(|p| p.cmdline.clone())
+            .collect();
+        if waiting.len() >= n {
+            return waiting;
+        }
+        c = COMMANDS_CV.wait(c).unwrap();
+    }
+}
+
+/// Let the registered command with this command line finish.
+pub fn release_command(cmdline: &str, result: CommandResult) {
+    let mut c = COMMANDS.lock().unwrap();
+    if let Some(p) = c
+        .pending
+        .iter_mut()
+        .find(|p| p.cmdline == cmdline && p.result.is_none())
+    {
+        p.result = Some(Some(result));
+    }
+    COMMANDS_CV.notify_all();
+}
+
+/// Make every registered command return an error (used when abandoning).
+pub fn abort_commands() {
+    let mut c = COMMANDS.lock().unwrap();
+    for p in c.pending.iter_mut() {
+        if p.result.is_none() {
+            p.result = Some(None);
+        }
+    }
+    COMMANDS_CV.notify_all();
+}
+
+// ---- build log ----------------------------------------------------------
+
+/// Called before each write to the log.  Returns the number of bytes to
+/// really write when a crash is injected.
+pub fn on_db_write(bytes: &[u8]) -> Option<usize> {
+    with_hooks(|h| h.db_write(bytes)).flatten()
+}
+
+pub fn on_db_build(graph: &Graph, id: BuildId, hash: u64) {
+    if !active() {
+        return;
+    }
+    let build = &graph.builds[id];
+    let outs = build
+        .outs()
+        .iter()
+        .map(|&f| graph.file(f).name.clone())
+        .collect();
+    let deps = build
+        .discovered_ins()
+        .iter()
+        .map(|&f| graph.file(f).name.clone())
+        .collect();
+    with_hooks(|h| h.db_build(outs, deps, hash));
+}
+
+// ---- progress -----------------------------------------------------------
+
+/// `Progress` implementation that forwards to the hooks.
+pub struct VerifProgress;
+
+impl crate::progress::Progress for VerifProgress {
+    fn update(&self, counts: &StateCounts) {
+        let c = [
+            counts.get(BuildState::Want),
+            counts.get(BuildState::Ready),
+            counts.get(BuildState::Queued),
+            counts.get(BuildState::Running),
+            counts.get(BuildState::Done),
+            counts.get(BuildState::Failed),
+        ];
+        with_hooks(|h| h.progress(ProgressEvent::Update(c)));
+    }
+    fn task_started(&self, id: BuildId, _build: &Build) {
+        with_hooks(|h| h.progress(ProgressEvent::TaskStarted(id.index())));
+    }
+    fn task_output(&self, id: BuildId, line: Vec<u8>) {
+        with_hooks(|h| h.progress(ProgressEvent::TaskOutput(id.index(), line)));
+    }
+    fn task_finished(&self, id: BuildId, _build: &Build, result: &crate::task::TaskResult) {
+        let ev = ProgressEvent::TaskFinished {
+            id: id.index(),
+            termination: termination_name(&result.termination),
+            output: result.output.clone(),
+            discovered: result.discovered_deps.clone(),
+        };
+        with_hooks(|h| h.progress(ev));
+    }
+    fn log(&self, msg: &str) {
+        with_hooks(|h| h.progress(ProgressEvent::Log(msg.to_owned())));
+    }
+}
+
+// ---- facade over internals (no behaviour of their own) -----------------
+
+/// Parse manifest bytes (NUL is appended) the way `load::read` parses the
+/// top-level file, without touching the build log.
+pub fn parse_manifest(name: &str, mut content: Vec<u8>) -> anyhow::Result<LoadedManifest> {
+    content.push(0);
+    let mut loader = crate::load::Loader::new();
+    let mut parser = crate::parse::Parser::new(&content);
+    loader.parse_with_parser(&mut parser, std::path::PathBuf::from(name), &[])?;
+    Ok(loaded_manifest(&loader.graph, None))
+}
+
+/// Result of loading a manifest: the build statements in order.
+pub struct LoadedManifest {
+    pub builds: Vec<BuildInfo>,
+}
+
+fn loaded_manifest(graph: &Graph, hashes: Option<&Hashes>) -> LoadedManifest {
+    LoadedManifest {
+        builds: graph_info(graph, hashes),
+    }
+}
+
+/// `load::read` (manifest + includes from disk + build log), dumped.
+pub struct LoadedState {
+    pub builds: Vec<BuildInfo>,
+    pub defaults: Vec<String>,
+    pub pools: Vec<(String, usize)>,
+}
+
+pub fn load_read(build_filename: &str) -> anyhow::Result<LoadedState> {
+    let state = crate::load::read(build_filename)?;
+    let builds = graph_info(&state.graph, Some(&state.hashes));
+    let defaults = state
+        .default
+        .iter()
+        .map(|&f| state.graph.file(f).name.clone())
+        .collect();
+    let pools = state.pools.iter().map(|(n, d)| (n.clone(), *d)).collect();
+    Ok(LoadedState {
+        builds,
+        defaults,
+        pools,
+    })
+}
+
+/// `depfile::parse` on a byte string (NUL is appended); targets with their
+/// prerequisites in the order the parser returns them.
+pub fn parse_depfile(mut content: Vec<u8>) -> Result<Vec<(String, Vec<String>)>, String> {
+    content.push(0);
+    let mut scanner = crate::scanner::Scanner::new(&content);
+    match crate::depfile::parse(&mut scanner) {
+        Ok(map) => Ok(map
+            .iter()
+            .map(|(k, v)| (k.to_string(), v.iter().map(|s| s.to_string()).collect()))
+            .collect()),
+        Err(err) => Err(scanner.format_parse_error(std::path::Path::new("depfile"), err)),
+    }
+}
+
+/// Build counts for the render helpers.
+pub fn state_counts(c: [usize; 6]) -> StateCounts {
+    let mut counts = StateCounts::default();
+    for (i, st) in [
+        BuildState::Want,
+        BuildState::Ready,
+        BuildState::Queued,
+        BuildState::Running,
+        BuildState::Done,
+        BuildState::Failed,
+    ]
+    .into_iter()
+    .enumerate()
+    {
+        counts.add(st, c[i] as isize);
+    }
+    counts
+}
+
+pub fn task_message(message: &str, seconds: usize, max_cols: usize) -> String {
+    crate::progress_fancy::verif_task_message(message, seconds, max_cols)
+}
+
+pub fn truncate(s: &str, max: usize) -> &str {
+    crate::progress_fancy::verif_truncate(s, max)
+}
+
+pub fn progress_bar(counts: [usize; 6], bar_size: usize) -> String {
+    crate::progress_fancy::verif_progress_bar(&state_counts(counts), bar_size)
+}
+
+pub fn read_depfile(path: &std::path::Path) -> anyhow::Result<Vec<String>> {
+    crate::task::verif_read_depfile(path)
+}
+
+pub fn extract_showincludes(output: Vec<u8>) -> (Vec<String>, Vec<u8>) {
+    crate::task::verif_extract_showincludes(output)
+}
+
+pub fn find_last_line(buf: &[u8]) -> &[u8] {
+    crate::task::verif_find_last_line(buf)
+}
